@@ -15,22 +15,35 @@ pub enum Out {
     Ok,
     Err(u8),
     Panic,
+    /// only as a request: emit the k-th blank string (the wrapped sink accepts it like any Ok metric)
+    Blank(u8),
 }
 
 pub const ERR_KINDS: &[io::ErrorKind] = &[
     io::ErrorKind::ConnectionRefused,
     io::ErrorKind::WouldBlock,
-    io::ErrorKind::BrokenPipe,
+    io::ErrorKind::Interrupted,
     io::ErrorKind::Other,
     io::ErrorKind::TimedOut,
     io::ErrorKind::PermissionDenied,
+    io::ErrorKind::BrokenPipe,
+    io::ErrorKind::WriteZero,
+    io::ErrorKind::InvalidInput,
+    io::ErrorKind::UnexpectedEof,
 ];
 
+/// Blank but distinct metric strings: legal through `MetricSink::emit`, never produced by `StatsdClient`.
+pub const BLANKS: &[&str] = &["", " ", "\n", "  ", "\t", " \n", "\r\n", "   "];
+
 pub fn metric_text(id: &str, out: &Out, pad: usize) -> String {
+    if let Out::Blank(k) = out {
+        return BLANKS[*k as usize % BLANKS.len()].to_string();
+    }
     let tail = match out {
         Out::Ok => "ok".to_string(),
         Out::Err(k) => format!("err{}", k),
         Out::Panic => "panic".to_string(),
+        Out::Blank(_) => unreachable!(),
     };
     format!("{}{}|{}", id, "x".repeat(pad), tail)
 }
@@ -52,9 +65,10 @@ pub enum Ev {
     DropCall { h: usize },
     DropRet { h: usize },
     /// wrapped sink boundary
-    Enter { metric: String, tid: u32 },
+    /// `on_harness_thread` is evaluated at the moment of the call (tids are reused, a later lookup could lie)
+    Enter { metric: String, tid: u32, on_harness_thread: bool },
     Exit { metric: String, out: Out, tid: u32 },
-    Handler { msg: String, kind: io::ErrorKind, tid: u32 },
+    Handler { msg: String, kind: io::ErrorKind, tid: u32, on_harness_thread: bool },
     SinkDrop { tid: u32 },
     /// schedule point of hook H2 passed by a library thread (only in builds with --cfg cadence_verif)
     Point { name: &'static str, tid: u32 },
@@ -72,9 +86,9 @@ impl Ev {
             Ev::CloneH { from, to } => format!("clone(h{}) -> h{}", from, to),
             Ev::DropCall { h } => format!("CALL drop(h{})", h),
             Ev::DropRet { h } => format!("RET drop(h{})", h),
-            Ev::Enter { metric, tid } => format!("ENTER {} t{}", crate::json::clip(metric, 40), tid),
+            Ev::Enter { metric, tid, on_harness_thread } => format!("ENTER {} t{}{}", crate::json::clip(metric, 40), tid, if *on_harness_thread { " (a harness/caller thread!)" } else { "" }),
             Ev::Exit { metric, out, tid } => format!("EXIT {} {:?} t{}", crate::json::clip(metric, 40), out, tid),
-            Ev::Handler { msg, kind, tid } => format!("HANDLER {:?} {} t{}", kind, msg, tid),
+            Ev::Handler { msg, kind, tid, .. } => format!("HANDLER {:?} {} t{}", kind, msg, tid),
             Ev::SinkDrop { tid } => format!("SINK_DROP t{}", tid),
             Ev::Point { name, tid } => format!("point {} t{}", name, tid),
             Ev::Release => "release".into(),
@@ -139,7 +153,8 @@ impl MetricSink for GatedSink {
         let sleep;
         {
             let mut g = self.sh.st.lock().unwrap_or_else(|e| e.into_inner());
-            g.log.push(Ev::Enter { metric: metric.to_string(), tid });
+            let on_harness_thread = procmon::is_harness_tid(tid);
+            g.log.push(Ev::Enter { metric: metric.to_string(), tid, on_harness_thread });
             g.in_call += 1;
             self.sh.cv.notify_all();
             while !(g.open || g.permits > 0) {
@@ -173,6 +188,7 @@ impl MetricSink for GatedSink {
             }),
             Out::Err(k) => Err(io::Error::new(ERR_KINDS[k as usize % ERR_KINDS.len()], format!("scripted-error:{}", metric))),
             Out::Panic => panic!("scripted-panic:{}", metric),
+            Out::Blank(_) => Ok(metric.len()),
         }
     }
 }
@@ -188,7 +204,8 @@ pub fn handler_for(sh: Arc<Shared>) -> impl Fn(io::Error) + Sync + Send + std::p
     let sh = std::panic::AssertUnwindSafe(sh);
     move |e: io::Error| {
         let tid = procmon::gettid();
-        sh.push(Ev::Handler { msg: e.to_string(), kind: e.kind(), tid });
+        let on_harness_thread = procmon::is_harness_tid(tid);
+        sh.push(Ev::Handler { msg: e.to_string(), kind: e.kind(), tid, on_harness_thread });
     }
 }
 
@@ -215,18 +232,28 @@ impl Stuck {
     }
 }
 
-/// Zombie library threads left behind by an earlier (violating) scenario are excluded from later verdicts.
-static ZOMBIES: Mutex<BTreeSet<u32>> = Mutex::new(BTreeSet::new());
+/// Zombie library threads left behind by an earlier (violating) scenario are excluded from later verdicts. They are
+/// identified by (tid, start time): the kernel reuses tids, and a later library thread must not inherit the label.
+static ZOMBIES: Mutex<BTreeSet<(u32, u64)>> = Mutex::new(BTreeSet::new());
 
 pub fn adopt_zombies() {
     let mut z = ZOMBIES.lock().unwrap();
     for t in procmon::library_tids() {
-        z.insert(t);
+        if let Some(st) = procmon::task_starttime(t) {
+            z.insert((t, st));
+        }
     }
 }
 
+fn zombie_tids() -> BTreeSet<u32> {
+    let mut z = ZOMBIES.lock().unwrap();
+    // forget zombies that have exited (or whose tid now belongs to another thread)
+    z.retain(|(t, st)| procmon::task_starttime(*t) == Some(*st));
+    z.iter().map(|(t, _)| *t).collect()
+}
+
 pub fn live_library_tids() -> Vec<u32> {
-    let z = ZOMBIES.lock().unwrap();
+    let z = zombie_tids();
     procmon::library_tids().into_iter().filter(|t| !z.contains(t)).collect()
 }
 
@@ -258,7 +285,7 @@ pub fn await_log(sh: &Shared, pred: impl Fn(&St) -> bool) -> Result<(), Stuck> {
         let g = sh.st.lock().unwrap_or_else(|e| e.into_inner());
         pred(&g)
     };
-    let zombies: BTreeSet<u32> = ZOMBIES.lock().unwrap().clone();
+    let zombies: BTreeSet<u32> = zombie_tids();
     let r = watch_excluding(check, &zombies, PARK_SAMPLES, PARK_SPAN, WATCHDOG.saturating_sub(start.elapsed()));
     match r {
         None => Ok(()),
@@ -280,7 +307,7 @@ pub fn await_no_library_thread() -> Result<(), Stuck> {
         }
         std::thread::yield_now();
     }
-    let zombies: BTreeSet<u32> = ZOMBIES.lock().unwrap().clone();
+    let zombies: BTreeSet<u32> = zombie_tids();
     match watch_excluding(|| live_library_tids().is_empty(), &zombies, PARK_SAMPLES, PARK_SPAN, WATCHDOG) {
         None => Ok(()),
         Some(Quiescence::NoLibraryThread) => Ok(()),
@@ -302,7 +329,7 @@ pub fn await_thread_gone(tid: u32) -> Result<(), Stuck> {
         }
         std::thread::yield_now();
     }
-    let zombies: BTreeSet<u32> = ZOMBIES.lock().unwrap().clone();
+    let zombies: BTreeSet<u32> = zombie_tids();
     match watch_excluding(gone, &zombies, PARK_SAMPLES, PARK_SPAN, WATCHDOG) {
         None => Ok(()),
         Some(Quiescence::NoLibraryThread) => Ok(()),
